@@ -81,7 +81,7 @@ func genC09(x *Ctx) *c09Scen {
 			case 0, 1: // preflight
 				r.Method = "OPTIONS"
 				r.ACRM = []string{"GET", "POST", "PUT", "DELETE", "PATCH", "get"}[tp.G(6)]
-				r.ACRH = []string{"", "X-Custom", "x-custom", "X-Custom, Accept", " accept ,X-CUSTOM", "X-Other", "X-Custom,X-Other", "Content-Type"}[tp.G(8)]
+				r.ACRH = []string{"", "X-Custom", "x-custom", "X-Custom, Accept", " accept ,X-CUSTOM", "X-Other", "X-Custom,X-Other", "Content-Type", "X-Custom,,X-Other", ",X-Other", "X-Custom, , Accept"}[tp.G(11)]
 			case 2: // OPTIONS without a requested method: an actual request
 				r.Method = "OPTIONS"
 			case 3:
